@@ -302,10 +302,39 @@ Definition check_apg (k : case_apg) : bool :=
 
 (* ---- accelerated pdhg: tau_k, sigma_k, theta_k recorded by replaying the scalar recursion ---- *)
 Record case_pdacc := { kw_nc : nat; kw_M : qmat; kw_f : fk; kw_g : fk; kw_tau : list Q; kw_sigma : list Q;
-                       kw_theta : list Q; kw_x : qvec; kw_n : nat; kw_tr : list qvec }.
+                       kw_theta : list Q; kw_x : qvec; kw_n : nat; kw_tr : list qvec;
+                       kw_split : list qvec }.   (* n1 iterations, then the rest with the step sizes reached, x_relax, y passed *)
 Definition check_pdacc (k : case_pdacc) : bool :=
   let L := mop (kw_M k) in let Ladj := madj (kw_nc k) (kw_M k) in
   let tau := fun j => nth j (kw_tau k) 0 in let sigma := fun j => nth j (kw_sigma k) 0 in
   let theta := fun j => nth j (kw_theta k) 0 in
   let st := fun j => pdhg_step L Ladj (prox_of (kw_f k) (tau j)) (ccprox_of (kw_g k) (sigma j)) (tau j) (sigma j) (theta j) in
-  vsclose (kw_tr k) (tracek pd_x (kw_n k) 0 st (pdhg_init (length (kw_M k)) (kw_x k) None None)).
+  vsclose (kw_tr k) (tracek pd_x (kw_n k) 0 st (pdhg_init (length (kw_M k)) (kw_x k) None None))
+  && splits_ok (kw_split k) (pd_x (iterk (kw_n k) 0 st (pdhg_init (length (kw_M k)) (kw_x k) None None))).
+
+(* ---- random order: the permutations drawn by the implementation (seeded) are part of the case ---- *)
+Definition kz_dflt : @kzop Q := mk_kzop (fun v => v) (fun _ v => v) [] 0.
+Record case_kzr := { kzr_nc : nat; kzr_Ms : list qmat; kzr_rhs : list qvec; kzr_omega : list Q; kzr_proj : pk;
+                     kzr_orders : list (list nat); kzr_x : qvec; kzr_n : nat;
+                     kzr_outer : list qvec; kzr_split : list qvec }.
+Definition check_kzr (k : case_kzr) : bool :=
+  let ops := mk_kzops (kzr_nc k) (kzr_Ms k) (kzr_rhs k) (kzr_omega k) in
+  let p := proj_of (kzr_proj k) in
+  let st := fun j => kz_step_ord p ops kz_dflt (nth j (kzr_orders k) []) in
+  vsclose (kzr_outer k) (tracek (fun x => x) (kzr_n k) 0 st (kzr_x k))
+  && splits_ok (kzr_split k) (iterk (kzr_n k) 0 st (kzr_x k)).
+
+Definition ad_dflt : @adop Q := mk_adop (fun v => v) (fun v => v) (fun v => v) 0 None 0 0.
+Record case_adr := { kdr_nc : nat; kdr_Ms : list qmat; kdr_gs : list fk; kdr_inner : list Q; kdr_keys : list nat;
+                     kdr_step : Q; kdr_orders : list (list nat); kdr_x : qvec; kdr_n : nat;
+                     kdr_outer : list qvec;     (* adupdates(random=True), outer callbacks *)
+                     kdr_ref : list qvec }.     (* adupdates_simple(random=True) with niter = 1..n, same seed *)
+Definition check_adr (k : case_adr) : bool :=
+  let ops := mk_adops (kdr_nc k) (kdr_step k) (kdr_Ms k) (kdr_gs k) (kdr_inner k) (map (fun _ => None) (kdr_Ms k)) (kdr_keys k) in
+  let tmps0 := map (fun _ => []) ops in
+  let ord := fun j => nth j (kdr_orders k) [] in
+  vsclose (kdr_outer k)
+    (tracek (fun s => fst (fst s)) (kdr_n k) 0 (fun j => ad_opt_step_ord (kdr_step k) ops ad_dflt (ord j))
+            (kdr_x k, ad_duals0 ops, tmps0))
+  && vsclose (kdr_ref k)
+       (tracek fst (kdr_n k) 0 (fun j => ad_ref_step_ord (kdr_step k) ops ad_dflt (ord j)) (kdr_x k, ad_duals0 ops)).
